@@ -415,6 +415,71 @@ func runHelpers(c *Ctx, prop string) {
 		}
 	})
 	flush()
+	// structured larger forests: 12, 16 (thorough: also 20 and 32) leaves, all alive or one aligned
+	// block deleted; A and B are aligned blocks of live leaves (single leaves and whole subtrees);
+	// thorough: A also any union of two blocks
+	bigNs := []int{12, 16}
+	if c.Thorough() {
+		bigNs = []int{12, 16, 20, 32}
+	}
+	c.Cov.Bound["structured.N"] = fmt.Sprint(bigNs)
+	for _, N := range bigNs {
+		blocks := alignedUnions(N, 1)
+		dels := append([][]int{nil}, blocks...)
+		for _, D := range dels {
+			if len(D) == N {
+				continue
+			}
+			s := ref.State{}.Apply(nil, N).Apply(D, 0)
+			states++
+			key := boolKey(s.Alive)
+			liveOnly := func(x []int) []int {
+				var out []int
+				for _, i := range x {
+					if s.Alive[i] {
+						out = append(out, i)
+					}
+				}
+				return out
+			}
+			var sets [][]int
+			seen := map[string]bool{}
+			src := blocks
+			if c.Thorough() && N <= 16 {
+				src = alignedUnions(N, 2)
+			}
+			for _, b := range src {
+				if l := liveOnly(b); len(l) > 0 && len(l) <= 8 && !seen[fmt.Sprint(l)] {
+					seen[fmt.Sprint(l)] = true
+					sets = append(sets, l)
+				}
+			}
+			for _, A := range sets {
+				for _, B := range sets {
+					if len(A)+len(B) > 10 {
+						continue
+					}
+					cases = append(cases, helperCase{Fn: "addproof", N: N, Alive: key, A: A, B: B}, helperCase{Fn: "missing", N: N, Alive: key, A: A, B: B})
+				}
+				for _, W := range subsets(A, false) {
+					if len(A) <= 4 {
+						rev := make([]int, len(A))
+						for i, a := range A {
+							rev[len(A)-1-i] = a
+						}
+						cases = append(cases, helperCase{Fn: "subset", N: N, Alive: key, A: rev, B: W})
+					}
+				}
+				for _, mode := range []string{"even", "none"} {
+					cases = append(cases, helperCase{Fn: "mapmissing", N: N, Alive: key, A: A, Mode: mode, TR: 0}, helperCase{Fn: "mapmissing", N: N, Alive: key, A: A, Mode: mode, TR: 63})
+				}
+				if len(cases) >= 1<<16 {
+					flush()
+				}
+			}
+		}
+	}
+	flush()
 	c.Cov.AddStates(int64(states))
 }
 
